@@ -32,6 +32,11 @@ pub struct ExtractOpts {
     /// None = extract everything
     pub explicit: Option<Vec<NameSel>>,
     pub skip_errors: bool,
+    /// what the output directory holds before the extraction: 0 nothing (fresh directory);
+    /// 1 a stale file of the *same length* and different bytes at every target; 2 a longer
+    /// stale file; 3 a shorter one (an earlier extraction of another revision of the set)
+    #[serde(default)]
+    pub prefill: u8,
 }
 
 #[derive(Clone, Debug, PartialEq, Eq, Serialize, Deserialize)]
@@ -110,8 +115,9 @@ pub fn extract_strategy() -> impl Strategy<Value = ExtractOpts> {
             .prop_map(Some),
         ],
         prop_oneof![2 => Just(false), 1 => Just(true)],
+        prop_oneof![3 => Just(0u8), 2 => Just(1u8), 1 => Just(2u8), 1 => Just(3u8)],
     )
-        .prop_map(|(threads, preserve, explicit, skip_errors)| ExtractOpts { threads, preserve, explicit, skip_errors })
+        .prop_map(|(threads, preserve, explicit, skip_errors, prefill)| ExtractOpts { threads, preserve, explicit, skip_errors, prefill })
 }
 
 pub fn create_strategy() -> impl Strategy<Value = CreateCase> {
@@ -326,12 +332,13 @@ fn extract_args(arch: &str, out: &str, o: &ExtractOpts, names: &[String]) -> Vec
 
 fn opts_class(o: &ExtractOpts, n_missing: usize) -> String {
     format!(
-        "thr{}:pp{}:{}:skip{}:missing{}",
+        "thr{}:pp{}:{}:skip{}:missing{}:stale{}",
         o.threads.map(|t| t.to_string()).unwrap_or("-".into()),
         o.preserve as u8,
         if o.explicit.is_some() { "named" } else { "all" },
         o.skip_errors as u8,
-        n_missing.min(2)
+        n_missing.min(2),
+        o.prefill
     )
 }
 
@@ -343,8 +350,34 @@ fn note(s: &str) {
     }
 }
 
+/// put stale files where the extraction is going to write (the tool overwrites its targets:
+/// exit 0 means the complete output was produced, whatever was there before)
+fn prefill(sb: &Sandbox, mode: u8, preserve: bool, targets: &[(String, usize)]) -> usize {
+    let mut n = 0;
+    if mode == 0 {
+        return 0;
+    }
+    for (name, len) in targets {
+        let stale_len = match mode {
+            1 => *len,
+            2 => *len + 1 + (*len % 7),
+            _ => *len / 2,
+        };
+        if mode == 1 && *len == 0 {
+            continue;
+        }
+        let stale: Vec<u8> = (0..stale_len).map(|i| 0xA5u8 ^ (i as u8).wrapping_mul(31)).collect();
+        sb.write(&extract_target("out/x", name, preserve), &stale);
+        n += 1;
+    }
+    n
+}
+
 fn bump_extract(check: &Check, o: &ExtractOpts, n_missing: usize, has_dirs: bool) {
     check.bump(if o.explicit.is_some() { "extract:named" } else { "extract:all" }, 1);
+    if o.prefill != 0 {
+        check.bump(&format!("extract:over-stale-files:mode{}", o.prefill), 1);
+    }
     if n_missing > 0 {
         check.bump(if o.skip_errors { "extract:missing-skip" } else { "extract:missing-noskip" }, 1);
     }
@@ -413,6 +446,8 @@ pub fn run_create(check: &Check, c: &CreateCase) -> Result<(), Fail> {
 
     // extract
     let xa = extract_args("arch.mpq", "out/x", &c.extract, &req);
+    let stale: Vec<(String, usize)> = contents.iter().map(|(n, d)| (n.clone(), d.len())).collect();
+    prefill(&sb, c.extract.prefill, c.extract.preserve, &stale);
     let r = sb.run(&xa);
     let want: Vec<&(String, Vec<u8>)> = if c.extract.explicit.is_some() { contents.iter().filter(|(n, _)| req.contains(n)).collect() } else { contents.iter().collect() };
     let verify = |sig: &str| -> Result<(), Fail> {
@@ -514,6 +549,11 @@ pub fn run_lib(check: &Check, c: &LibCase) -> Result<(), Fail> {
     };
     let errs = lib["read_errors"].as_u64().unwrap_or(0);
     let xa = extract_args("arch.mpq", "out/x", &c.extract, &req);
+    let stale: Vec<(String, usize)> = lib["files"]
+        .as_object()
+        .map(|m| m.iter().filter(|(_, d)| d.get("err").is_none()).map(|(n, d)| (n.clone(), d["len"].as_u64().unwrap_or(0) as usize)).collect())
+        .unwrap_or_default();
+    prefill(&sb, c.extract.prefill, c.extract.preserve, &stale);
     let r = sb.run(&xa);
     if errs > 0 && !c.extract.skip_errors {
         if r.ok() {
